@@ -325,3 +325,53 @@ package server
 //@   nosafety
 //@   requires f != nil
 //@   call Equal args d filter.Chain requires len(d) == len(f.exportFilterChain) && verif_arrayof(d) == verif_arrayof(f.exportFilterChain)
+
+// Properties C25 / C26 (see routingtable/zz_contracts_verif.go for what is
+// decided). Session-side locks: the peer's FSM list, then an FSM's state, are
+// taken before any table lock; the update sender's queue lock is taken after
+// the Adj-RIB-Out's (the Adj-RIB-Out calls the update sender with its lock held).
+//@ locklevel peerManager.peersMu 2
+//@ locklevel peer.fsmsMu 3
+//@ locklevel FSM.stateMu 4
+//@ locklevel UpdateSender.toSendMu 40
+//@ guarded UpdateSender.toSend by toSendMu
+//@ guarded peer.fsms by fsmsMu
+//@ guarded peerManager.peers by peersMu
+//@ guarded FSM.state by stateMu
+
+//@ contract (*UpdateSender).AddPath, (*UpdateSender).AddPathInitialDump, (*UpdateSender).EndOfRIB, (*UpdateSender).sender
+//@   props C25 C26
+//@   nosafety
+//@   acquires 40
+//@   locks C25
+//@   guards C26
+
+// Called with the queue lock held.
+//@ contract (*UpdateSender)._flush
+//@   props C25 C26
+//@   nosafety
+//@   requires verif_wheld(&u.toSendMu)
+//@   acquires 41
+//@   locks C25
+//@   guards C26
+
+//@ contract (*peer).replaceImportFilterChain, (*peer).replaceExportFilterChain, (*peer).collisionHandling, (*peer).stop, (*peer).dumpRIBIn, (*peer).dumpRIBOut
+//@   props C25 C26
+//@   nosafety
+//@   acquires 3
+//@   locks C25
+//@   guards C26
+
+//@ contract metricsForPeer
+//@   props C25 C26
+//@   nosafety
+//@   acquires 3
+//@   locks C25
+//@   guards C26
+
+//@ contract (*bgpServer).GetRIBIn, (*bgpServer).GetRIBOut, (*peerManager).add, (*peerManager).remove, (*peerManager).get, (*peerManager).list
+//@   props C25 C26
+//@   nosafety
+//@   acquires 2
+//@   locks C25
+//@   guards C26
